@@ -254,6 +254,12 @@ func c19(c *ctx) {
 		c.o.close()
 		os.Exit(3)
 	}
+	// a session closed while its writers wait in the user's bucket (own subprocess)
+	if err := runChild(c, "C19burnt"); err != nil {
+		fmt.Fprintln(os.Stderr, err)
+		c.o.close()
+		os.Exit(3)
+	}
 	// the allowance across a disconnect / reconnect of the user (own subprocess)
 	if err := runChild(c, "C19re"); err != nil {
 		fmt.Fprintln(os.Stderr, err)
